@@ -46,6 +46,22 @@ func (fc *FuncCtx) sortOfTypeName(name string, sc *specCtx) (*Sort, types.Type) 
 		s, _ := fc.sortOfTypeName(name[2:], sc)
 		return SliceOf(s), nil
 	}
+	if strings.HasPrefix(name, "map[") {
+		depth := 0
+		for i := 3; i < len(name); i++ {
+			if name[i] == '[' {
+				depth++
+			}
+			if name[i] == ']' {
+				depth--
+				if depth == 0 {
+					ks, _ := fc.sortOfTypeName(name[4:i], sc)
+					vs, _ := fc.sortOfTypeName(name[i+1:], sc)
+					return MapOf(ks, vs), nil
+				}
+			}
+		}
+	}
 	switch name {
 	case "int", "uint", "int64", "uint64", "int32", "uint32", "uint8", "byte", "uint16", "int8", "int16", "Int":
 		var bt types.Type
